@@ -26,6 +26,21 @@ pub fn main(mode: &str, args: &[String]) {
     match mode {
         "gen" => {
             let steps: u32 = a.value("--steps").map(|s| s.parse().unwrap()).unwrap_or(if a.thorough { 120 } else { 60 });
+            if let Some(d) = a.value("--exhaust") {
+                // bounded exhaustive exploration: every action sequence up to depth d from the fixed small scenarios
+                let depth: usize = d.parse().unwrap();
+                for sc in 0..3u32 {
+                    crate::sim::exhaust(sc, depth, a.shard, a.nshards, |sim, leaf| {
+                        tr.case(a.shard * 100_000_000 + sc as u64 * 10_000_000 + leaf, 0, &format!("core exhaust={depth} scenario={sc} {}", sim.header()));
+                        for l in &sim.core.lines {
+                            tr.line(l);
+                        }
+                        tr.end();
+                    });
+                }
+                tr.flush();
+                return;
+            }
             for k in 0..a.cases {
                 let subseed = a.case_seed(k);
                 run_case(&mut tr, a.shard * 1_000_000 + k, subseed, steps);
